@@ -23,7 +23,7 @@ REG = {
  'C03': (True,
    "An independent X.690 reference written in Coq from the standard (Spec/X690.v: canonical DER/CER encoders and a TLV-tree reader). Theorems: the DER encoder's output equals the reference byte for byte, in both directions (success and refusal), for simple types under any tags and SEQUENCE/SEQUENCE OF nesting with OPTIONAL/DEFAULT components; the CER encoder's output equals the reference's CER for simple types incl. segmented strings and meets the canonical-form rules; every BER/CER/DER encoder output in every mode is read by the reference reader to the same abstract value. Per input (all types): DER/CER bytes compared with the reference evaluated by vm_compute, BER/CER outputs read back.",
    "Rocq/Coq: independent executable X.690 specification + equivalence proofs (induction over types and digit recursions) + evaluation in the kernel's VM",
-   'CER completeness and cer_canonical for containers are decided per input only. Known findings F01, F24 (pinned).'),
+   'DER over the whole universe in both directions (C03_der_encoder_is_reference_all); CER in both directions under cer_exact_all (C03_cer_encoder_is_reference_all, C03_cer_refusal_is_reference_all) and cer_canonical for containers, CHOICE and ANY (C03_cer_output_canonical_all). Also per input: DER/CER called with caller-supplied defMode/maxChunkSize give the same octets. Known findings F01, F24 (pinned).'),
  'C05': (True,
    'Theorems: generic schedule independence for any interaction-tree decoder; and unconditionally for the decoder model: every run that consumes an encoding is a clean run (global invariant), hence for every value of the universe (definite mode) and every stage-2 value in indefinite/segmented/CER mode, ANY arrival schedule (any partition, polls, no end-of-stream needed) yields exactly the one-shot object at the end of the encoding. Tied to /repo by all 2^(n-1) partitions of short streams, sampled schedules with polls/short reads/late close on seekable and non-seekable doubles incl. streams longer than one buffer, compared with `drive` evaluated in Coq.',
    'Rocq/Coq proof (simulation + induction over schedules and interaction trees; global cleanliness invariant) + vm_compute correspondence against /repo',
@@ -85,7 +85,7 @@ REG = {
  'C16': (True,
    'Theorems: decoding WITHOUT a guiding type returns exactly the wire tags, the same skeleton and leaves, and DER re-encoding of the result reproduces the DER encoding of the original, for self-describing simple types under EXPLICIT tags and SEQUENCE/SEQUENCE OF/SET/SET OF nesting, in every mode of the BER encoder and for the CER encoder, also with absent OPTIONAL components. Per input: DER/BER/CER encodings of the implicit-free sub-universe decoded without schema: value object, byte-identical DER re-encoding, same leaves; model compared in Coq.',
    'Rocq/Coq proof (induction over types and explicit tag stacks) + vm_compute correspondence against /repo',
-   'CHOICE and DEFAULT components are decided per input. Known finding F01 (pinned).'),
+   'Untagged CHOICE members and DEFAULT components are covered against the pruned type (C16_schemaless_roundtrip_choice_default, _cer, C16_schemaless_der_reencode_choice_default); tagged CHOICE, SET OF of CHOICE and a CHOICE directly inside a SET under CER are decided per input. The DER input of the per-input check is the independent reference DER where the encoder output differs from it. Known finding F01 (pinned).'),
  'C17': (True,
    "Coq model of the native encoder/decoder and of the bare-value branch of the BER/CER/DER encoders; theorems by induction on the type: native "
    "round trip preserves abstract content (ANY included), Python-value encoding equals value-object encoding for every codec/mode incl. absent "
